@@ -4,3 +4,4 @@ pub mod step;
 pub mod wind;
 pub mod curve;
 pub mod clip;
+pub mod layer;
